@@ -126,6 +126,25 @@ def composed_worlds():
                                                     N("default", {"key": "A"}, text="2")]),
         N("section", {"type": "mt1", "name": "*", "attribute": "one"})])
     out.append(("main.xml", {"main.xml": main, "mid.xml": mid, "root.xml": root}, {}))
+    # 7 type names are unique across what <import src> takes over: the schema defines types of its own BEFORE it
+    #   imports two libraries, each of which has a type nothing refers to (renaming it is a name clash and nothing else)
+    lib1 = N("schema", {}, [
+        N("sectiontype", {"name": "lt1"}, [N("key", {"name": "lk"})]),
+        N("sectiontype", {"name": "spare1"}, [N("key", {"name": "sk"})])])
+    lib2 = N("schema", {}, [
+        N("abstracttype", {"name": "labs"}),
+        N("abstracttype", {"name": "spare2"}),
+        N("sectiontype", {"name": "lt2", "implements": "labs"}, [])])
+    main = N("schema", {}, [
+        N("sectiontype", {"name": "fresh-type"}, [N("key", {"name": "a"})]),
+        N("abstracttype", {"name": "fresh-name"}),
+        N("sectiontype", {"name": "k1"}, []),
+        N("import", {"src": "lib1.xml"}),
+        N("import", {"src": "lib2.xml"}),
+        N("sectiontype", {"name": "own2", "extends": "lt1", "implements": "labs"}, []),
+        N("multisection", {"type": "fresh-type", "name": "*", "attribute": "fs"}),
+        N("multisection", {"type": "labs", "name": "*", "attribute": "ls"})])
+    out.append(("main.xml", {"main.xml": main, "lib1.xml": lib1, "lib2.xml": lib2}, {}))
     return out
 
 
